@@ -431,11 +431,15 @@ func boolCoq(b bool) string {
 const (
 	completionLimit = 15 * time.Second
 	closeWriteGrace = 10 * time.Second
-	counterGrace    = 10 * time.Second
+	counterGrace    = 3 * time.Second
+	setupLimit      = 10 * time.Second
 )
 
-// stuckSessions counts sessions in which something that had to end by itself
-// did not; after a few of them further generation is pointless (and slow).
+// stuckSessions counts sessions in which something that had to happen did not
+// within its bound (a connection that had to end by itself, counters that had
+// to reach their quiescent values); such a session is emitted with what was
+// observed, so that the checker rejects it, and after a few of them further
+// generation is pointless (and slow).
 var stuckSessions int
 
 // runSession executes the session on the real code and renders the Coq term.
@@ -460,14 +464,25 @@ func runSession(s Session) (coq string, nontrivial bool, tags []string) {
 		go runPeer(lc.client, spec.EndC, spec.PayC, spec.ChunkC, start, lc.oc)
 		go runPeer(lc.server, spec.EndS, spec.PayS, spec.ChunkS, start, lc.os)
 		live[i] = lc
-		src.conns <- lc.first
-		dst.conns <- lc.second
+		for _, h := range []struct {
+			ep *fakeEndpoint
+			c  net.Conn
+		}{{src, lc.first}, {dst, lc.second}} {
+			select {
+			case h.ep.conns <- h.c:
+			case <-time.After(setupLimit):
+				panic("controller.forward did not ask for the next connection")
+			}
+		}
 	}
 	// The loop asks for the next connection only after it has counted the
 	// previous one, so once Open has been called len+1 times all are counted.
-	for n := range src.notify {
-		if int(n) == len(s.Conns)+1 {
-			break
+	for counted := false; !counted; {
+		select {
+		case n := <-src.notify:
+			counted = int(n) == len(s.Conns)+1
+		case <-time.After(setupLimit):
+			panic("controller.forward did not come back for another connection")
 		}
 	}
 	mo, mt, mi, mu := vc.Counters()
@@ -584,6 +599,11 @@ func runSession(s Session) (coq string, nontrivial bool, tags []string) {
 		}
 		time.Sleep(100 * time.Microsecond)
 	}
+	if fo != 0 || fi != wantIn || fu != wantOut || ft != uint64(len(live)) {
+		// recorded as observed: the checker rejects these counters
+		tags = append(tags, "counters-not-quiescent")
+		stuckSessions++
+	}
 	tags = append(tags, "cancel:"+s.Cancel, fmt.Sprintf("conns:%d", len(live)))
 	if anyFault {
 		tags = append(tags, "faults")
@@ -627,7 +647,7 @@ func main() {
 		var coq string
 		var nt bool
 		var tags []string
-		if w.Guard(s, 120*time.Second, func() { coq, nt, tags = runSession(s) }) {
+		if w.Guard(s, 60*time.Second, func() { coq, nt, tags = runSession(s) }) {
 			w.Add(hx.Case{Coq: coq, Replay: s, Nontrivial: nt, Tags: tags, Origin: origin})
 		}
 	}
